@@ -143,7 +143,11 @@ func getCorpus(id int) *sCorpus {
 	if c, ok := corpusCache[id]; ok {
 		return c
 	}
-	rng := rand.New(rand.NewPCG(uint64(id)+1000, 77))
+	// ids >= 100 are the "same name" variants of corpus id-100: the first two
+	// repositories (tenants 1 and 2) carry the same name (legal for two tenants);
+	// only harnesses that identify repositories by id use them
+	dupNames := id >= 100
+	rng := rand.New(rand.NewPCG(uint64(id%100)+1000, 77))
 	c := &sCorpus{ID: id, Vocab: sVocab}
 	nRepos := 4 + rng.IntN(3)
 	for i := 0; i < nRepos; i++ {
@@ -196,6 +200,9 @@ func getCorpus(id int) *sCorpus {
 			r.Docs = append(r.Docs, doc)
 		}
 		c.Repos = append(c.Repos, r)
+	}
+	if dupNames {
+		c.Repos[1].Repo.Name = c.Repos[0].Repo.Name
 	}
 	if id%3 == 0 {
 		// a repository whose documents are all empty (placeholders such as __init__.py):
@@ -270,6 +277,11 @@ func getCorpus(id int) *sCorpus {
 	for i := range c.Repos {
 		if !used[i] {
 			c.Shards = append(c.Shards, simple[i])
+		}
+	}
+	if dupNames {
+		for i, im := range c.Shards {
+			im.Key = fmt.Sprintf("s%d-%s", i, im.Key) // same-named repositories give same-named shard files
 		}
 	}
 	corpusCache[id] = c
